@@ -272,4 +272,26 @@ def run(chk, tier):
     c13.push_plumbing(chk, fx)
     from . import shared
     shared.value_truncate(chk, fx, "value-truncate")
+    # the single-value converters convert the FIRST value: every constant index into a variant's payload is 0, and it sits in an arm
+    # whose guard says the payload is not empty (`!s.is_empty()`, not the reverse)
+    chk.rule("first-value", "PrimitiveValue single-value converters (to_int, to_float32/64, to_date/time/datetime and their naive / range forms, string): constant indexes "
+             "into the payload are [0], under an arm guard `!<payload>.is_empty()`")
+    n_idx = 0
+    for hh in fx.crate("dicom_core")["hir"]:
+        m = re.fullmatch(r"dicom_core::value::primitive::PrimitiveValue::(to_int|to_float32|to_float64|to_date|to_time|to_datetime|to_naive_date|to_naive_time|to_date_range|to_time_range|"
+                         r"to_datetime_range|to_datetime_range_custom|string|to_person_name)", hh["path"])
+        if not m:
+            continue
+        for mm in H.walk(hh["body"]):
+            if H.kind(mm) != "match":
+                continue
+            for p, g, b, ln in H.match_arms(mm):
+                idx = [H.int_lit(y[3]) for y in H.walk(b) if H.kind(y) == "index" and H.int_lit(y[3]) is not None]
+                if not idx:
+                    continue
+                n_idx += 1
+                gt = H.show(g, 5) if g is not None else ""
+                ok = all(i == 0 for i in idx) and re.fullmatch(r"Not\(\w+\.is_empty\(\)\)", gt) is not None
+                chk.expect(ok, "first-value", m.group(1), f"{H.show_pat(p)[:40]}", "index [0] under guard !payload.is_empty()", {"indexes": idx, "guard": gt}, loc=f"{hh['loc']['f']}:{ln}")
+    chk.floor("first-value", "arms indexing the payload", n_idx, 34)
     chk.undecided.append("numeric exactness inside NumCast::from / str::parse (trusted); extend_* numeric casts are documented as lossy and out of the property")
